@@ -368,7 +368,17 @@ namespace DFS
       return 0;
     std::optional<Format> fmt = drive_format(drive, error);
     if (!fmt)
-      return 0;
+      {
+	if (error.empty())
+	  {
+	    // drive_format() returns nullopt without an explanation
+	    // when the drive holds an unformatted disc.
+	    std::ostringstream ss;
+	    ss << "the disc in drive " << drive << " is unformatted";
+	    error = ss.str();
+	  }
+	return 0;
+      }
     return std::make_unique<FileSystem>(*p, *fmt, p->geometry());
   }
 
